@@ -301,6 +301,25 @@ pub fn run(repo: &str, unit_path: &str, canary: bool) -> std::result::Result<Run
                 types.push(json!({"kind": words[0], "name": name, "file": file, "members": field_list}));
                 i += 1;
             }
+            "bodyis" => {
+                // //@bodyis <file> <Type::fn> <expected body tokens>: the rewrite that inlines this accessor is only
+                // sound while the real body is exactly this text; otherwise the unit is undecided.
+                let file = words.get(1).ok_or("bodyis: file?")?.to_string();
+                let target = words.get(2).ok_or("bodyis: target?")?.to_string();
+                let (ty, name) = target.rsplit_once("::").ok_or("bodyis target")?;
+                let expect_src = d.splitn(4, char::is_whitespace).nth(3).unwrap_or("").trim().to_string();
+                let expect = norm_str(&expect_src).ok_or("bodyis: bad tokens")?;
+                let (_, f) = files.get(&file)?;
+                let found = find_fn(f, ty, name, None, usize::MAX)?;
+                let body = match found { Found::Method(m) => m.block, Found::Free(func) => *func.block };
+                let have = norm(&body.to_token_stream());
+                if have != expect {
+                    return Err(format!("lost-anchor bodyis {target}: body is `{have}`, expected `{expect}`"));
+                }
+                types.push(json!({"kind": "bodyis", "name": target, "file": file, "body": have}));
+                em.push_raw(&format!("// vx: checked that {target} in {file} has body {expect_src}"));
+                i += 1;
+            }
             "const" => {
                 let file = words.get(1).ok_or("const: file?")?.to_string();
                 let name = words.get(2).ok_or("const: name?")?.to_string();
@@ -313,9 +332,27 @@ pub fn run(repo: &str, unit_path: &str, canary: bool) -> std::result::Result<Run
                         }
                     }
                 }
+                if found.is_none() {
+                    // an immutable `static` is copied as a `const` (R9: same value, no address identity)
+                    for it in &f.items {
+                        if let Item::Static(st) = it {
+                            if st.ident == name && matches!(st.mutability, StaticMutability::None) {
+                                let (ty, ex) = (&st.ty, &st.expr);
+                                let id = &st.ident;
+                                let c: ItemConst = parse_quote!(pub const #id: #ty = #ex;);
+                                found = Some(c);
+                            }
+                        }
+                    }
+                }
                 let mut c = found.ok_or(format!("lost-anchor const {file} {name}"))?;
                 c.attrs.clear();
                 c.vis = parse_quote!(pub);
+                if let Type::Reference(r) = &mut *c.ty {
+                    if r.lifetime.is_none() {
+                        r.lifetime = Some(parse_quote!('static));
+                    }
+                }
                 let sp = Splices::default();
                 let mut pr = Printer::new(&sp, 0);
                 pr.stream(c.to_token_stream());
